@@ -2,6 +2,7 @@ package main
 
 import (
 	"fmt"
+	"math/rand"
 	"regexp"
 	"sort"
 	"strings"
@@ -243,4 +244,100 @@ func runSema(env *semaEnv, src string, untrusted bool) *semaResult {
 	}
 	r.canon = fmt.Sprintf("ty=%s;errs=%s;untrusted=%s", hx(ty.String()), strings.Join(r.errCodes, "|"), strings.Join(us, "|"))
 	return r
+}
+
+// semaCodes extracts the multiset (sorted) of diagnostic codes with the given names from a canonical sema result.
+func semaCodes(canon string, names ...string) string {
+	i := strings.Index(canon, ";errs=")
+	j := strings.Index(canon, ";untrusted=")
+	if i < 0 || j < i {
+		return canon
+	}
+	var out []string
+	for _, e := range strings.Split(canon[i+6:j], "|") {
+		for _, n := range names {
+			if strings.HasPrefix(e, n+"(") {
+				out = append(out, e)
+			}
+		}
+	}
+	sort.Strings(out)
+	return strings.Join(out, "|")
+}
+
+// semaTie runs n random (typing environment, expression) pairs through the real checker and the model
+// (the same generator as C06) and records disagreements; judge (may be nil) says which differences are, by the
+// property's theorems about the model, failures of the property on that input.
+// semaCase is one fixed (environment, expression source) pair for semaTie.
+type semaCase struct {
+	env *semaEnv
+	src string
+}
+
+// logicalSkeletons enumerates every expression built from the leaves with at most maxOps of `!`, `( )`, `&&`, `||`.
+func logicalSkeletons(maxOps int, leaves []string) []string {
+	bySize := make([][]string, maxOps+1)
+	bySize[0] = leaves
+	for n := 1; n <= maxOps; n++ {
+		var out []string
+		for _, e := range bySize[n-1] {
+			out = append(out, "!"+e, "("+e+")")
+		}
+		for i := 0; i < n; i++ {
+			for _, l := range bySize[i] {
+				for _, r := range bySize[n-1-i] {
+					out = append(out, l+" && "+r, l+" || "+r)
+				}
+			}
+		}
+		bySize[n] = out
+	}
+	var all []string
+	for _, b := range bySize {
+		all = append(all, b...)
+	}
+	return all
+}
+
+func semaTie(c *ctx, r *Report, n int, envMod func(rng *rand.Rand, env *semaEnv), fixed []semaCase, judge func(cs Case) (string, string)) error {
+	rng := rand.New(rand.NewSource(c.seed + 7919))
+	r.Rule += fmt.Sprintf("; model tie: %d random (typing environment, expression) pairs through the real ExprSemanticsChecker and the Lean sema model, outputs (type, diagnostics with arguments, untrusted reports) compared", n)
+	var b batch
+	b.judge = judge
+	if len(fixed) > 0 {
+		r.Rule += fmt.Sprintf(" + %d enumerated pairs", len(fixed))
+	}
+	for i := 0; i < n+len(fixed); i++ {
+		var env *semaEnv
+		var src string
+		if i < len(fixed) {
+			env, src = fixed[i].env, fixed[i].src+" }}"
+		} else {
+			env = genEnv(rng)
+			if envMod != nil {
+				envMod(rng, env)
+			}
+			src = genSemaExpr(rng, env, 1+rng.Intn(4)) + " }}"
+		}
+		cs := Case{Op: "sema", Input: map[string]string{"env": env.encode(), "expr": src}}
+		var res *semaResult
+		pmsg, to := guarded(10e9, func() { res = runSema(env, src, true) })
+		r.Evaluations++
+		if pmsg != "" || to {
+			cs.Note = pmsg
+			r.Crashes = append(r.Crashes, cs)
+			continue
+		}
+		if res.syntaxErr {
+			continue
+		}
+		if res.bad {
+			cs.Impl, cs.Note = res.canon, "message matches no known template"
+			r.disagree(cs)
+		}
+		b.add("sema "+env.encode()+" "+hx(src), res.canon, cs)
+		r.hist("tie:sema")
+	}
+	_, err := b.flush(c, r)
+	return err
 }
